@@ -1,7 +1,10 @@
 package main
 
 import (
+	"fmt"
 	"go/token"
+	"go/types"
+	"strings"
 
 	"golang.org/x/tools/go/ssa"
 )
@@ -278,7 +281,7 @@ func edgeExcl(isA, isB func(ssa.Value) bool, excluded ...ordering) EdgePred {
 		if ifi == nil {
 			return false
 		}
-		tab := condTable(ifi.Cond, isA, isB)
+		tab := condTable(condOf(b), isA, isB)
 		for _, o := range excluded {
 			if tab[o] == triUnknown {
 				return false
@@ -293,4 +296,189 @@ func edgeExcl(isA, isB func(ssa.Value) bool, excluded ...ordering) EdgePred {
 		}
 		return true
 	}
+}
+
+// ---------------------------------------------------------------------------
+// Boolean-abstract decision tables: the CFG is interpreted under every truth
+// assignment to a few atomic conditions; conditions that are none of the
+// atoms are explored both ways. For each assignment the walker reports
+// whether an event instruction is reached on some / on every path to a return.
+
+type atomPred func(v ssa.Value) (isAtom bool, sameSense bool)
+
+type boolOutcome struct {
+	some, all bool // event reached on some path / on every path
+	paths     int
+}
+
+func boolTable(f *ssa.Function, atoms []atomPred, event func(ssa.Instruction) bool) (map[int]boolOutcome, bool) {
+	out := map[int]boolOutcome{}
+	ok := true
+	n := len(atoms)
+	for a := 0; a < 1<<n; a++ {
+		val := func(v ssa.Value) tri {
+			for i, at := range atoms {
+				if is, same := at(v); is {
+					t := a&(1<<i) != 0
+					return triOf(t == same)
+				}
+			}
+			return triUnknown
+		}
+		var eval func(v ssa.Value, pred *ssa.BasicBlock, d int) tri
+		eval = func(v ssa.Value, pred *ssa.BasicBlock, d int) tri {
+			if d > 12 {
+				return triUnknown
+			}
+			if t := val(v); t != triUnknown {
+				return t
+			}
+			switch x := v.(type) {
+			case *ssa.Const:
+				if b, isB := constBool(x); isB {
+					return triOf(b)
+				}
+			case *ssa.UnOp:
+				if x.Op == token.NOT {
+					switch eval(x.X, pred, d+1) {
+					case triTrue:
+						return triFalse
+					case triFalse:
+						return triTrue
+					}
+				}
+				if x.Op == token.MUL {
+					if s := loadedValue(x); s != nil {
+						return eval(s, pred, d+1)
+					}
+				}
+			case *ssa.Phi:
+				if pred != nil {
+					for i, p := range x.Block().Preds {
+						if p == pred {
+							return eval(x.Edges[i], nil, d+1)
+						}
+					}
+				}
+			}
+			return triUnknown
+		}
+		res := boolOutcome{all: true}
+		budget := 20000
+		type key struct {
+			b, p *ssa.BasicBlock
+			seen bool
+			sig  string
+		}
+		visited := map[key]bool{}
+		sigOf := func(m map[*ssa.Phi]tri) string {
+			var ks []string
+			for p, t := range m {
+				ks = append(ks, fmt.Sprintf("%s=%d", p.Name(), t))
+			}
+			sortStrings(ks)
+			return strings.Join(ks, ",")
+		}
+		// bool phis must be resolved by the edge taken when they are *defined*, so carry their values along
+		var walk func(b, pred *ssa.BasicBlock, seen bool, phiv map[*ssa.Phi]tri)
+		walk = func(b, pred *ssa.BasicBlock, seen bool, phiv map[*ssa.Phi]tri) {
+			if budget <= 0 {
+				ok = false
+				return
+			}
+			budget--
+			k := key{b, pred, seen, sigOf(phiv)}
+			if visited[k] {
+				return
+			}
+			visited[k] = true
+			np := phiv
+			for _, in := range b.Instrs {
+				p, isPhi := in.(*ssa.Phi)
+				if !isPhi {
+					break
+				}
+				if bt, isB := p.Type().Underlying().(*types.Basic); !isB || bt.Kind() != types.Bool {
+					continue
+				}
+				if pred == nil {
+					continue
+				}
+				for i, pb := range b.Preds {
+					if pb == pred {
+						var t tri
+						if q, isQ := p.Edges[i].(*ssa.Phi); isQ {
+							t = phiv[q]
+						} else {
+							t = eval(p.Edges[i], nil, 0)
+						}
+						if np == nil || &np == &phiv {
+							np = map[*ssa.Phi]tri{}
+							for kk, vv := range phiv {
+								np[kk] = vv
+							}
+						}
+						np[p] = t
+					}
+				}
+			}
+			for _, in := range b.Instrs {
+				if event(in) {
+					seen = true
+				}
+				switch in.(type) {
+				case *ssa.Return:
+					res.paths++
+					if seen {
+						res.some = true
+					} else {
+						res.all = false
+					}
+					return
+				case *ssa.Panic:
+					return
+				}
+			}
+			if ifi := ifOf(b); ifi != nil {
+				t := triUnknown
+				base, neg := stripNot(ifi.Cond)
+				if p, isPhi := base.(*ssa.Phi); isPhi {
+					if pv, known := np[p]; known && pv != triUnknown {
+						t = pv
+						if neg {
+							if t == triTrue {
+								t = triFalse
+							} else {
+								t = triTrue
+							}
+						}
+					}
+				}
+				if t == triUnknown {
+					t = eval(ifi.Cond, pred, 0)
+				}
+				switch t {
+				case triTrue:
+					walk(b.Succs[0], b, seen, np)
+				case triFalse:
+					walk(b.Succs[1], b, seen, np)
+				default:
+					walk(b.Succs[0], b, seen, np)
+					walk(b.Succs[1], b, seen, np)
+				}
+				return
+			}
+			for _, s := range b.Succs {
+				walk(s, b, seen, np)
+			}
+		}
+		if len(f.Blocks) > 0 {
+			walk(f.Blocks[0], nil, false, nil)
+		}
+		if res.paths == 0 {
+			res.all = false
+		}
+		out[a] = res
+	}
+	return out, ok
 }
